@@ -40,6 +40,7 @@ func record(a *hx.Args, res *hx.Result) {
 	events := 0
 	for h := 0; h < a.N; h++ {
 		w := newWorld(kp)
+		w2 := newWorld(kp) // a second accumulator chain under the same key, grown in lockstep (source of foreign event lists)
 		emit(hx.M{"ev": "reset"})
 		events++
 		var wprime [nw + 1]*big.Int
@@ -66,6 +67,7 @@ func record(a *hx.Args, res *hx.Result) {
 				if err := w.revoke(fresh()); err != nil {
 					hx.Fatal("revoke: %v", err)
 				}
+				w2.revoke(fresh())
 				emit(hx.M{"ev": "revoke", "id": nw + 1})
 			case op == 1 && n() < maxRev: // revoke a witness
 				i := 1 + rng.Intn(nw)
@@ -75,6 +77,7 @@ func record(a *hx.Args, res *hx.Result) {
 				if err := w.revoke(wprime[i]); err != nil {
 					hx.Fatal("revoke: %v", err)
 				}
+				w2.revoke(fresh())
 				revoked[i] = true
 				emit(hx.M{"ev": "revoke", "id": i})
 			case op == 2: // issue
@@ -137,6 +140,27 @@ func record(a *hx.Args, res *hx.Result) {
 				g := rng.Intn(n() + 1)
 				hh := g + rng.Intn(n()+1-g)
 				p := rng.Intn(2) == 0
+				if hh >= 1 && rng.Intn(3) == 0 { // a list of the other chain: must be refused and leave the update as it was
+					el := w2.eventlist(g, hh, p)
+					var perr error
+					panicked, msg := hx.Try(func() { perr = upds[k].Prepend(el) })
+					if panicked {
+						res.Violation("prepend-panic", "Update.Prepend panicked: "+msg, hx.M{"history": h, "step": s, "g": g, "h": hh, "foreign": true})
+						continue
+					}
+					first, last := -1, -1
+					if ev := upds[k].Events; len(ev) > 0 {
+						first, last = int(ev[0].Index), int(ev[len(ev)-1].Index)
+					}
+					cls := "nil"
+					if perr != nil {
+						cls = "error"
+					}
+					emit(hx.M{"ev": "prependforeign", "k": k, "g": g, "h": hh, "p": p, "class": cls, "first": first, "last": last})
+					res.Count("rec-prependforeign:" + cls)
+					events++
+					continue
+				}
 				el := w.eventlist(g, hh, p)
 				var perr error
 				panicked, msg := hx.Try(func() { perr = upds[k].Prepend(el) })
